@@ -409,6 +409,15 @@ def _oracle_step(ctx, case, step, op, snap, others, res, err):
             return
     if err is not None:
         cls = _err_class(err)
+        # a filter that RAISES must leave every dataset, its own input included, exactly as it was
+        for o in others:
+            d = o["obj"]
+            if ([id(m) for m in d.mazes] != o["maze_ids"] or [_fp(m) for m in d.mazes] != o["fps"] or _canon_gmc_real(d.generation_metadata_collected) != o["gmc"]
+                    or json.dumps([_enc_rec(r) for r in d.cfg.applied_filters]) != o["applied"] or int(d.cfg.n_mazes) != o["n_mazes"]):
+                lost = sum(1 for m, f in zip(d.mazes, o["fps"]) if _fp(m) != f)
+                viol(f"the filter raised {cls} but had already modified {'its input' if o is snap else 'an earlier dataset'}: {lost} mazes changed "
+                     f"(generation_meta stripped before the failure was noticed)", key="failed-filter-modifies-input")
+                return
         if cls in tolerated:
             return
         if "failed to load applied filters" in str(err) and any("args" not in r for r in snap["cfg"].applied_filters):
